@@ -95,7 +95,7 @@ func solveOne(vc *VC, o *Obl, dir string, timeout time.Duration, needAll bool) *
 	use := solvers
 	if o.Vacuity {
 		use = solvers[:1]
-		timeout = 3 * time.Second
+		timeout = 1500 * time.Millisecond
 	}
 	ch := make(chan ans, len(use))
 	for _, sp := range use {
